@@ -28,7 +28,7 @@ pub static PROP: Prop = Prop {
            being handled. Non-trivial = shape signature (input class, answered?, send-error pattern, leap state); distinct signatures \
            are counted.",
     assumptions: &[
-        "an input counts as a request for the 'answers only requests' clause when the harness decoder sees a PTP Sync message (34-byte header, messageLength within the datagram, 10-byte body) carrying a CSPTP request TLV (0xff00); sdoId/version/TLV-shape strictness is counted, not judged",
+        "an input counts as a request for the 'answers only requests' clause when the harness decoder sees a PTP Sync message (34-byte header, messageLength within the datagram, 10-byte body) carrying exactly one CSPTP request TLV (0xff00) and no CSPTP response TLV; sdoId/version/TLV-shape strictness is counted, not judged",
         "whether every valid request is answered is counted (canonical_unanswered), not judged: the statement only constrains answers",
     ],
     profiles: Profiles::Both,
@@ -399,7 +399,13 @@ fn run(c: &mut Case) {
         let n_event = events.iter().filter(|s| matches!(s, Sent::Event { .. })).count();
         let n_general = events.len() - n_event;
         let dec = if inp.bytes.is_some() { ptpsim::decode(seen) } else { None };
-        let lenient_request = dec.as_ref().map(|m| m.msg_type == ptpsim::T_SYNC && m.count_tlv(ptpsim::TLV_CSPTP_REQUEST) >= 1).unwrap_or(false);
+        // a datagram carrying more than one CSPTP request/response TLV (two requests, or a request and a response) is
+        // contradictory and not a well-formed request
+        let ambiguous = dec.as_ref().map(|m| m.count_tlv(ptpsim::TLV_CSPTP_REQUEST) + m.count_tlv(ptpsim::TLV_CSPTP_RESPONSE) >= 2).unwrap_or(false);
+        if ambiguous {
+            c.inc("ambiguous_csptp_tlvs_inputs");
+        }
+        let lenient_request = !ambiguous && dec.as_ref().map(|m| m.msg_type == ptpsim::T_SYNC && m.count_tlv(ptpsim::TLV_CSPTP_REQUEST) >= 1).unwrap_or(false);
         let strict_request = dec
             .as_ref()
             .map(|m| {
